@@ -56,6 +56,10 @@ static void loadConfig(const json::Object &o) {
         if (auto v = eo.getString("prov")) ef.prov = v->str();
         if (auto v = eo.getInteger("lo")) ef.retlo = *v;
         if (auto v = eo.getInteger("hi")) ef.rethi = *v;
+        if (auto v = eo.getInteger("lenptr")) ef.lenptr = (int)*v;
+        if (auto v = eo.getInteger("hiarg")) ef.hiarg = (int)*v;
+        if (auto v = eo.getBoolean("null")) ef.mayNull = *v;
+        if (auto v = eo.getInteger("maxlen")) ef.maxlen = *v;
         effs.push_back(ef);
       }
       CFG.contracts[kv.first.str()] = effs;
@@ -191,6 +195,10 @@ static std::string pathRecord(State &S, std::map<std::string, int> &setTable, st
     for (auto &R : S.regions) if (R.name == CFG.reportRegion) {
       { int64_t ml = -1; int64_t mh = R.rd().nulAfter(0, &ml); o += ",\"nul\":[" + std::to_string(ml) + "," + std::to_string(mh) + "]"; }
       o += ",\"wset\":\"" + setHex(R.rd().wset) + "\"";
+      o += ",\"scalars\":[";
+      { bool f = true; for (auto &kv : R.rd().scalars) { Val sv = kv.second.second; if (sv.k != Val::INT) continue; tighten(S, sv); if (!f) o += ","; f = false;
+          o += "[" + std::to_string(kv.first) + "," + std::to_string(kv.second.first) + ",\"" + (sv.r.isFullSet() || sv.r.isWrappedSet() ? std::string("any") : i128s((i128)sv.r.getUnsignedMin().getZExtValue())) + "\",\"" + (sv.r.isFullSet() || sv.r.isWrappedSet() ? std::string("any") : i128s((i128)sv.r.getUnsignedMax().getZExtValue())) + "\"]"; } }
+      o += "]";
       o += ",\"out\":[";
       const RegionData &D = R.rd();
       size_t n = std::min(D.bytes.size(), (size_t)400);
